@@ -1032,15 +1032,6 @@ func (client *client) publishHandler(pub *packets.Publish) *codes.Error {
 		}
 	}
 
-	if pub.Retain {
-		if len(pub.Payload) == 0 {
-			// msg.Topic is the resolved topic name (pub.TopicName is empty when a topic alias is used)
-			srv.retainedDB.Remove(msg.Topic)
-		} else {
-			srv.retainedDB.AddOrReplace(msg.Copy())
-		}
-	}
-
 	var err error
 	var topicMatched bool
 	if !dup {
@@ -1056,6 +1047,16 @@ func (client *client) publishHandler(pub *packets.Publish) *codes.Error {
 			opts = req.IterationOptions
 		}
 		if msg != nil && err == nil {
+			// The retained store sees what OnMsgArrived decided: nothing for a rejected or dropped
+			// message, the rewritten message otherwise.
+			if msg.Retained {
+				if len(msg.Payload) == 0 {
+					// msg.Topic is the resolved topic name (pub.TopicName is empty when a topic alias is used)
+					srv.retainedDB.Remove(msg.Topic)
+				} else {
+					srv.retainedDB.AddOrReplace(msg.Copy())
+				}
+			}
 			topicMatched = client.deliverMessage(client.opts.ClientID, msg, opts)
 		}
 	}
